@@ -424,6 +424,30 @@ static void do_call(const std::vector<std::string>& f, bool capi)
       for (size_t i = 0; i < g_cb_args.size(); ++i) extra += (i ? "," : "") + jstr(hexs<Scalar>(Scalar(g_cb_args[i])));
       extra += "]";
     }
+  } else if (op == "testpoly") {
+    int r = lib([&]{ return MASA::masa_test_poly<Scalar>(); });
+    extra = "\"ret\":" + std::to_string(r);
+  } else if (op == "version") {
+    int r = lib([&]{ return MASA::masa_get_numeric_version(); });
+    int r2 = lib([&]{ return MASA::masa_version_stdout(); });
+    extra = "\"ret\":" + std::to_string(r) + ",\"ret2\":" + std::to_string(r2);
+  } else if (op == "passfunc") {
+    // passfunc p api a kind c0 c1 c2
+    Scalar a0 = Scalar(num(f[3]));
+    g_cb_kind = f[4] == "arr" ? 1 : f[4] == "poly" ? 2 : 0;
+    for (int j = 0; j < 3; ++j) g_cb_c[j] = num(f[5 + size_t(j)]);
+    g_cb_args.clear();
+    Scalar r = lib([&]{ return MASA::pass_func<Scalar>(&cb_fn<Scalar>, a0); });
+    extra = "\"ret\":" + jstr(hexs<Scalar>(r)) + ",\"a\":" + jstr(hexs<Scalar>(a0)) + ",\"ncb\":" + std::to_string(g_cb_args.size());
+    extra += ",\"cb\":[" + jstr(f[4]);
+    for (int j = 0; j < 3; ++j) extra += "," + jstr(hexs<Scalar>(Scalar(g_cb_c[j])));
+    extra += "]";
+  } else if (op == "testdefault") {
+    // always terminates the process: status 1 when the value is the marker or the sentinel, 0 otherwise
+    Scalar v = Scalar(num(f[3]));
+    g_pending += ",\"v\":" + jstr(hexs<Scalar>(v));
+    int r = lib([&]{ return capi ? masa_test_default(double(v)) : MASA::masa_test_default<Scalar>(v); });
+    extra = "\"ret\":" + std::to_string(r);
   } else {
     finish("\"skip\":true", "unknownop"); return;
   }
